@@ -129,9 +129,17 @@ func (vm *VirtualMachine) start(ctx context.Context) error {
 	// Halt execution when the context is cancelled
 	vm.halt = 0
 	if doneChan := ctx.Done(); doneChan != nil {
+		startCount := vm.startCount
 		go func() {
 			<-doneChan
-			atomic.StoreInt32(&vm.halt, 1)
+			// Only halt the invocation this watcher was started for: the
+			// context may be cancelled long after that invocation finished,
+			// while a later one is running on this VM.
+			vm.runMutex.Lock()
+			defer vm.runMutex.Unlock()
+			if vm.running && vm.startCount == startCount {
+				atomic.StoreInt32(&vm.halt, 1)
+			}
 		}()
 	}
 	return nil
